@@ -8,6 +8,7 @@ import (
 	"sort"
 	"strings"
 	"sync"
+	"sync/atomic"
 	"time"
 
 	"github.com/hugelgupf/p9/linux"
@@ -137,7 +138,11 @@ func c16Script(root p9.File, seed uint64, steps int) []c16res {
 				continue
 			}
 			q, _, a, gerr := f.GetAttr(p9.AttrMaskAll)
-			add("getattr "+d+"/"+n, fmt.Sprintf("q%d size%d %s", cn.id(q.Path), a.Size, eno(gerr)))
+			// and the xattr requests: Txattrwalk binds a fid of its own next to
+			// this one, while others rename and unlink around it
+			xv, xerr := f.GetXattr("user.x")
+			xl, lerr := f.ListXattrs()
+			add("getattr "+d+"/"+n, fmt.Sprintf("q%d size%d %s xattr%q:%s list%d:%s", cn.id(q.Path), a.Size, eno(gerr), xv, eno(xerr), len(xl), eno(lerr)))
 			f.Close()
 		case 4: // setattr size
 			f, err := walkTo(path(d, n)...)
@@ -531,6 +536,7 @@ func c16Shared(c *ev.Ctx, G, K int, seed uint64, steps int, socket bool) {
 		}
 		conns = append(conns, cn)
 	}
+	var efaults int64
 	var wg sync.WaitGroup
 	for g := 0; g < G; g++ {
 		wg.Add(1)
@@ -576,6 +582,15 @@ func c16Shared(c *ev.Ctx, G, K int, seed uint64, steps int, socket bool) {
 					if len(held) > 0 {
 						f := held[r.Intn(len(held))]
 						f.GetAttr(p9.AttrMaskAll)
+						// Txattrwalk binds a fid next to this one while others
+						// rename the entry: no request of this mix may be
+						// answered EFAULT (nothing in the backend panics)
+						if _, xerr := f.GetXattr("user.x"); errors.Is(xerr, linux.EFAULT) {
+							atomic.AddInt64(&efaults, 1)
+						}
+						if _, lerr := f.ListXattrs(); errors.Is(lerr, linux.EFAULT) {
+							atomic.AddInt64(&efaults, 1)
+						}
 					}
 				case 6:
 					if len(held) > 0 {
@@ -620,6 +635,9 @@ func c16Shared(c *ev.Ctx, G, K int, seed uint64, steps int, socket bool) {
 	}
 	for _, o := range fs.Overlaps() {
 		c.Violation("C16:shared:forbidden-overlap:"+o.A+"x"+o.B, map[string]any{"overlap": o.Desc, "shape": det})
+	}
+	if n := atomic.LoadInt64(&efaults); n > 0 {
+		c.Violation("C16:shared:request-answered-EFAULT-although-nothing-in-the-backend-panics:xattr", map[string]any{"count": n, "shape": det})
 	}
 	var lv []string
 	for _, v := range fs.LifecycleViolations(true) {
